@@ -8,7 +8,12 @@ pub const N_EVIDENCE: usize = 3;
 /// World-time grid. Evaluation times and validity windows are picked from it,
 /// so "expired", "not yet valid", "valid now" and both window boundaries
 /// (`from == at` is inside, `until == at` is outside) all occur.
-pub const GRID: [&str; 7] = [
+///
+/// g0..g6 are yearly instants. g7..g10 are fine bounds around the evaluation
+/// instant g3 (they are only ever window bounds): 4 h before, half a second
+/// before, half a second after (same second as g3, non-zero milliseconds) and
+/// 4 h after. `rank` gives the chronological order.
+pub const GRID: [&str; 11] = [
     "2021-01-01T00:00:00.000Z",
     "2022-01-01T00:00:00.000Z",
     "2023-01-01T00:00:00.000Z",
@@ -16,9 +21,74 @@ pub const GRID: [&str; 7] = [
     "2025-01-01T00:00:00.000Z",
     "2026-01-01T00:00:00.000Z",
     "2027-01-01T00:00:00.000Z",
+    "2023-12-31T20:00:00.000Z",
+    "2023-12-31T23:59:59.500Z",
+    "2024-01-01T00:00:00.500Z",
+    "2024-01-01T04:00:00.000Z",
 ];
+const RANK: [u8; 11] = [0, 1, 2, 5, 8, 9, 10, 3, 4, 6, 7];
+/// Chronological position of a grid instant.
+pub fn rank(grid_index: usize) -> u8 {
+    RANK[grid_index]
+}
 /// The three evaluation times (indexes into GRID).
 pub const EVAL_TIMES: [usize; 3] = [1, 3, 5];
+
+/// How an evaluation instant is written in `FOR TIME`. All spellings of one
+/// grid index denote the same instant.
+#[derive(Clone, Copy, Debug, PartialEq, Eq, Serialize, Deserialize)]
+pub enum Spelling {
+    /// `YYYY-MM-DDTHH:MM:SS.sssZ` — the form the engine stores
+    Canonical,
+    /// second precision, `Z`
+    Seconds,
+    /// the same instant at `+08:00`
+    PlusOffset,
+    /// the same instant at `-05:00` (the previous calendar day)
+    MinusOffset,
+    /// `+00:00` instead of `Z`
+    ZeroOffset,
+}
+impl Spelling {
+    pub const OTHERS: [Spelling; 4] = [
+        Spelling::Seconds,
+        Spelling::PlusOffset,
+        Spelling::MinusOffset,
+        Spelling::ZeroOffset,
+    ];
+    pub fn label(self) -> &'static str {
+        match self {
+            Spelling::Canonical => "canonical",
+            Spelling::Seconds => "second-precision",
+            Spelling::PlusOffset => "plus-offset",
+            Spelling::MinusOffset => "minus-offset",
+            Spelling::ZeroOffset => "zero-offset",
+        }
+    }
+    pub fn of_label(label: &str) -> Option<Spelling> {
+        [Spelling::Canonical]
+            .into_iter()
+            .chain(Spelling::OTHERS)
+            .find(|s| s.label() == label)
+    }
+    /// Spells an evaluation instant (a yearly grid instant: 1 January, midnight UTC).
+    pub fn spell(self, grid_index: usize) -> String {
+        let canonical = GRID[grid_index];
+        let (year, rest) = canonical.split_at(4);
+        assert!(
+            rest == "-01-01T00:00:00.000Z",
+            "only the yearly instants are evaluation instants"
+        );
+        let year: u32 = year.parse().expect("year");
+        match self {
+            Spelling::Canonical => canonical.to_string(),
+            Spelling::Seconds => format!("{year}-01-01T00:00:00Z"),
+            Spelling::PlusOffset => format!("{year}-01-01T08:00:00+08:00"),
+            Spelling::MinusOffset => format!("{}-12-31T19:00:00-05:00", year - 1),
+            Spelling::ZeroOffset => format!("{year}-01-01T00:00:00+00:00"),
+        }
+    }
+}
 
 #[derive(Clone, Copy, Debug, PartialEq, Eq, PartialOrd, Ord, Hash, Serialize, Deserialize)]
 pub enum Stance {
@@ -115,10 +185,54 @@ impl Window {
             until: Some(4),
         },
     ];
+    /// Windows with fine bounds around the evaluation instant g3 (see GRID):
+    /// starts / ends half a second after g3 (same second, non-zero milliseconds);
+    /// starts / ends half a second before; starts 4 h after; ended 4 h before;
+    /// [-4 h, +4 h) and the one-second window [-0.5 s, +0.5 s) around g3.
+    pub const FINE: [Window; 8] = [
+        Window {
+            from: Some(9),
+            until: None,
+        },
+        Window {
+            from: None,
+            until: Some(9),
+        },
+        Window {
+            from: Some(8),
+            until: None,
+        },
+        Window {
+            from: None,
+            until: Some(8),
+        },
+        Window {
+            from: Some(10),
+            until: None,
+        },
+        Window {
+            from: None,
+            until: Some(7),
+        },
+        Window {
+            from: Some(7),
+            until: Some(10),
+        },
+        Window {
+            from: Some(8),
+            until: Some(9),
+        },
+    ];
     /// Spec: no window means "always"; `from` is inclusive, `until` exclusive.
+    /// Decided on instants (chronological rank), never on text.
     pub fn contains(&self, at: usize) -> bool {
-        self.from.map(|f| (f as usize) <= at).unwrap_or(true)
-            && self.until.map(|u| at < u as usize).unwrap_or(true)
+        self.from
+            .map(|f| rank(f as usize) <= rank(at))
+            .unwrap_or(true)
+            && self
+                .until
+                .map(|u| rank(at) < rank(u as usize))
+                .unwrap_or(true)
     }
 }
 
